@@ -144,6 +144,7 @@ class SimLoop(asyncio.SelectorEventLoop):
         self.vt_deadline = vt_deadline
         self.max_job_time = 0       # index into JOB_TIMES the chooser may reach
         self.job_time_rule = None   # callable(job) -> (exec delay s, deliver delay s) or None
+        self.slow_jobs = []         # one-shot entries [job name, countdown, exec delay, deliver delay]
         self.timed_jobs = []
         self.gated = False          # gated mode: job bodies run in helper threads, step by step
         self.gjobs = []
@@ -199,7 +200,18 @@ class SimLoop(asyncio.SelectorEventLoop):
         # "this job is slow, let t advance": optional delays in virtual *time* (a slow disk, a
         # busy executor); such a job does not hold the clock
         t1 = t2 = 0.0
-        if self.job_time_rule is not None:
+        slow = None
+        for e in self.slow_jobs:
+            # [job name, countdown, exec delay, deliver delay]: the n-th further job of that name
+            if e[0] == job.name:
+                e[1] -= 1
+                if e[1] <= 0:
+                    slow = e
+                    break
+        if slow is not None:
+            self.slow_jobs.remove(slow)
+            t1, t2 = slow[2], slow[3]
+        elif self.job_time_rule is not None:
             t1, t2 = self.job_time_rule(job)
         elif self.max_job_time:
             t1 = JOB_TIMES[self.chooser.draw('job_exec_t', self.max_job_time + 1)]
